@@ -368,7 +368,7 @@ def row_primitives(ctx, w, S, rule, spec=True):
             bad += 1
             if bad <= 6:
                 ctx.violation(rule, key, "Line %s on a %d-cell row gives %s, specification %s" % (desc, k, show(got), show(want)), loc=w.fn_loc(roles[which]))
-    for k in range(1, 6):
+    for k in range(1, 9 if getattr(ctx, "tier", "") == "thorough" else 6):
         for col in range(0, k + 1):
             for n in range(0, k - col + 1):
                 run("insert", k, [col, n, NEW], lambda b, bl, col=col, n=n, k=k: b[:col] + [NEW] * n + b[col:k - n], "insert/k=%d,col=%d,n=%d" % (k, col, n), "insert(col=%d, n=%d)" % (col, n))
@@ -378,7 +378,7 @@ def row_primitives(ctx, w, S, rule, spec=True):
             for hi in range(col, k + 1):
                 run("clear", k, [("range", col, hi, False), pen], lambda b, bl, col=col, hi=hi: b[:col] + [bl] * (hi - col) + b[hi:], "clear/k=%d,%d..%d" % (k, col, hi), "clear(%d..%d)" % (col, hi))
     if not bad:
-        ctx.ok(rule, "all", {"cases": n_cases, "bound": "row widths 1..5, every column and count", "primitives": roles})
+        ctx.ok(rule, "all", {"cases": n_cases, "bound": "row widths 1..%d, every column and count" % (8 if getattr(ctx, "tier", "") == "thorough" else 5), "primitives": roles})
     ctx.rule_counts[rule] = n_cases
     return roles
 
@@ -444,8 +444,8 @@ def scroll_primitives(ctx, w, S, rule, spec=True):
             ifs = w.facts.struct_fields(inner)
             if ifs and all(x["ty"]["s"] == "usize" for x in ifs):
                 configs = [{f["name"]: H.NONE_V}] + [{f["name"]: H.some(("obj", inner, {x["name"]: v for x in ifs}))} for v in (0, 1)]
-    for rows in range(1, 5):
-        for sb in range(0, 3):
+    for rows in range(1, 6 if getattr(ctx, "tier", "") == "thorough" else 5):
+        for sb in range(0, 4 if getattr(ctx, "tier", "") == "thorough" else 3):
             for start in range(0, rows):
                 for end in range(start + 1, rows + 1):
                     for n in range(0, rows + 2):
@@ -518,7 +518,7 @@ def scroll_primitives(ctx, w, S, rule, spec=True):
                                     ctx.violation(rule, key, "scroll %s of rows %d..%d by %d on a %d-row screen with %d scrollback line(s)%s: %s" % (which, start, end, n, rows, sb, "".join(", %s = %s" % (k_, cfg_str(v_)) for k_, v_ in cfg.items()), msg),
                                                   loc=w.fn_loc(up if which == "up" else down))
     if not bad:
-        ctx.ok(rule, "all", {"cases": n_cases, "bound": "rows 1..4, scrollback 0..2 lines, every range, every count 0..rows+1", "scroll_up": up, "scroll_down": down})
+        ctx.ok(rule, "all", {"cases": n_cases, "bound": "rows 1..%d, scrollback 0..%d lines, every range, every count 0..rows+1" % ((5, 3) if getattr(ctx, "tier", "") == "thorough" else (4, 2)), "scroll_up": up, "scroll_down": down})
     ctx.rule_counts[rule] = n_cases
 
 
@@ -604,8 +604,8 @@ def buffer_edit_primitives(ctx, w, S, R, rule, spec=True):
                 diff = [(i - 1, g, x) for i, (g, x) in enumerate(zip(got, want)) if g != x]
                 ctx.violation(rule, key, "%s: row %d becomes %s (soft-wrapped: %s), specification %s (soft-wrapped: %s)" % (what, diff[0][0], diff[0][1][0], diff[0][1][1], diff[0][2][0], diff[0][2][1])
                               if diff else "%s: number of rows changed" % what, loc=w.fn_loc(sig[op]))
-    for cols in range(1, 5):
-        for rows in range(1, 4):
+    for cols in range(1, 7 if getattr(ctx, "tier", "") == "thorough" else 5):
+        for rows in range(1, 5 if getattr(ctx, "tier", "") == "thorough" else 4):
             for row in range(rows):
                 for col in range(cols + 1):
                     geo = "%dx%d@(%d,%d)" % (cols, rows, col, row)
@@ -671,7 +671,7 @@ def buffer_edit_primitives(ctx, w, S, R, rule, spec=True):
                             run("erase", "erase/%s/%s%s" % (label, geo, "" if n is None else ",n=%d" % n), cols, rows, (col, row), [mode, pen], we,
                                 "%s%s at %s" % (label, "" if n is None else " %d" % n, geo))
     if not bad:
-        ctx.ok(rule, "all", {"cases": n_cases, "bound": "cols 1..4, rows 1..3, every cursor position incl. col == cols, counts 0..cols+1", "selectors": [s[0] for s in selectors]})
+        ctx.ok(rule, "all", {"cases": n_cases, "bound": "cols 1..%d, rows 1..%d, every cursor position incl. col == cols, counts 0..cols+1" % ((6, 4) if getattr(ctx, "tier", "") == "thorough" else (4, 3)), "selectors": [s[0] for s in selectors]})
     ctx.rule_counts[rule] = n_cases
 
 
@@ -789,3 +789,38 @@ def gc_semantics(w, S, T):
                     if (got_ret or None) != (want_ret or None):
                         return False, "%s: the gc hands out %s, specification %s (the drained lines, oldest first)" % (desc, got_ret, want_ret)
     return True, n
+
+
+def ctor_semantics(ctx, w, S, rule):
+    """Buffer::new(cols, rows, limit, pen) interpreted: `rows` rows of `cols` blank cells carrying exactly the given
+    pen (all of it - colours AND attributes), or the default pen when none is given; unwrapped; size fields as given."""
+    ctx.rule(rule, "Buffer::new builds rows x cols blank cells that carry exactly the pen it was given (the default pen when none), no soft-wrap marks, and records the size it was given")
+    pen = ("sym", "PEN")
+    n = 0
+    for cols in (1, 2, 3):
+        for rows in (1, 2, 3):
+            for p in (H.some(pen), H.NONE_V):
+                it = VecInterp(w.facts)
+                try:
+                    b = it.call_fn(S.buffer_ctor, [cols, rows, H.NONE_V, p])
+                    lines = b[2][S.lines_field].items
+                    if p == H.NONE_V:
+                        dp = [c for c in it.local_calls if False]
+                        first = lines[0][2][S.cells_field].items[0] if lines and lines[0][2][S.cells_field].items else None
+                        ok_pen = first is not None and isinstance(first, tuple) and first[0] == "v" and first[2][0] == 32 and "default" in repr(first[2][1]).lower()
+                        want_cell = first
+                    else:
+                        want_cell = it.call_fn("cell::Cell::blank", [pen])
+                        ok_pen = True
+                    ok = ok_pen and len(lines) == rows and all(l[2][S.cells_field].items == [want_cell] * cols and l[2][S.wrap_field] is False for l in lines) \
+                        and b[2][S.buf_cols] == cols and b[2][S.buf_rows] == rows
+                    msg = "Buffer::new(%d, %d, .., %s) builds %s" % (cols, rows, "Some(pen)" if p != H.NONE_V else "None", [show(l[2][S.cells_field].items) for l in lines][:3])
+                except errs() as ex:
+                    ok, msg = False, "Buffer::new(%d, %d, ..) cannot be evaluated: %s" % (cols, rows, ex)
+                n += 1
+                if not ok:
+                    ctx.violation(rule, "%dx%d:%s" % (cols, rows, "pen" if p != H.NONE_V else "none"), msg + "; expected every cell to be a blank in exactly the given pen", loc=w.fn_loc(S.buffer_ctor))
+                    ctx.rule_counts[rule] = n
+                    return
+    ctx.ok(rule, "all", {"cases": n})
+    ctx.rule_counts[rule] = n
